@@ -379,6 +379,11 @@ def _mk_instance(cls, params, fixed, given=None, order=0):
 def _call_args(params, expl, mode):
     if mode == 0:
         return (), {params[p]: S("expl", p) for p in expl}
+    if mode == 3:
+        # mixed: the first explicit parameter by position (None placeholders before it), the others by name
+        first = min(expl)
+        return (tuple(S("expl", p) if p == first else None for p in range(first + 1)),
+                {params[p]: S("expl", p) for p in expl if p != first})
     last = max(expl) + 1 if expl else 0
     return tuple(S("expl", p) if p in expl else None for p in range(last)), {}
 
@@ -395,6 +400,8 @@ def get_rows():
         for E in subsets(k):
             for mode in (0, 1):
                 combos.append(([], E, mode))
+            if len(E) >= 2:
+                combos.append(([], E, 3))
         for F in subsets(k):
             if F:
                 combos.append((F, [], 0))
@@ -803,6 +810,10 @@ def run_get_row_concrete(row, arg, farg, expl, dep, x):
                            **{"f_" + params[p]: farg[p] for p in F})
                 if mode == 0:
                     out["value"] = getattr(inst, meth)(x, **{params[p]: expl[p] for p in E})
+                elif mode == 3:
+                    first = min(E)
+                    out["value"] = getattr(inst, meth)(x, *[expl[p] if p == first else None for p in range(first + 1)],
+                                                       **{params[p]: expl[p] for p in E if p != first})
                 else:
                     last = max(E) + 1 if E else 0
                     out["value"] = getattr(inst, meth)(x, *[expl[p] if p in E else None for p in range(last)])
